@@ -360,9 +360,9 @@ func init() {
 			}
 			return nil
 		},
-		Timeout: 60 * time.Second,
+		Timeout: 120 * time.Second,
 	})
-	core.Register("trav.oracle", &core.CheckDef{Real: c13Real, Judge: c13OracleJudge, Timeout: 60 * time.Second})
+	core.Register("trav.oracle", &core.CheckDef{Real: c13Real, Judge: c13OracleJudge, Timeout: 120 * time.Second})
 	core.RegisterProp("C13", runC13)
 }
 
@@ -555,6 +555,44 @@ func runC13(ctx *core.Ctx) {
 			}
 			ctx.Add("trav.proj", c13ProjArgs{Services: svcs, Reverse: mask%2 == 1, Cycle: mask%5 == 4})
 			ctx.Count(fmt.Sprintf("digraph-n%d", n))
+		}
+	}
+	// every project with up to 2 services whose depends_on draws on {a, b, ghost, off1}, each absent / required / optional
+	pool4 := []string{"a", "b", "ghost", "off1"}
+	for n := 1; n <= 2; n++ {
+		total := 1
+		for i := 0; i < 4*n; i++ {
+			total *= 3
+		}
+		for code := 0; code < total; code++ {
+			if n == 2 && !ctx.Thorough() && code%5 != int(ctx.Seed%5) {
+				continue
+			}
+			c := code
+			svcs := make([]c13Svc, n)
+			for x := 0; x < n; x++ {
+				svcs[x].Name = names[x]
+				for _, d := range pool4 {
+					switch c % 3 {
+					case 1:
+						svcs[x].Deps = append(svcs[x].Deps, c13Dep{D: d, Req: true})
+					case 2:
+						svcs[x].Deps = append(svcs[x].Deps, c13Dep{D: d, Req: false})
+					}
+					c /= 3
+				}
+			}
+			ok := true
+			for _, sv := range svcs {
+				if len(sv.Deps) > 3 {
+					ok = false
+				}
+			}
+			if !ok {
+				continue
+			}
+			ctx.Add("trav.proj", c13ProjArgs{Services: svcs, Disabled: []string{"off1"}, Cycle: code%4 == 3})
+			ctx.Count(fmt.Sprintf("project-small-scope-n%d", n))
 		}
 	}
 	for i := 0; i < ctx.Pick(300, 5000); i++ {
